@@ -50,7 +50,16 @@ fn twin(rp: &RParams, s: &[f64; 6]) -> [f64; 6] {
 fn run_case(_kind: &str, idx: u64, rng: &mut Rng, mon: &mut Mon, _tier: Tier) {
     let robot = gen_robot(rng, idx, RobotMode::NonDegenerate, 0.0);
     let rp = robot.rp;
-    let kin = make_solver(rng, &rp);
+    let bare = make_solver(rng, &rp);
+    // a third of the robots is asked through a stack of Tool / Base / Frame wrappers (depth 1..2, incl. tiny
+    // rotations and identity / rotation-only / translation-only transforms): completeness and closure are
+    // statements about joint vectors and must survive the rigid transforms on either side
+    let layers: Vec<crate::props::stack::Layer> = if rng.bool(0.33) { crate::props::stack::gen_stack(rng, 1 + rng.clone().usize(2), false, &["Tool", "Base", "Frame"]) } else { vec![] };
+    let _ = rng.next_u64();
+    if !layers.is_empty() {
+        mon.count("robots_behind_a_wrapper_stack");
+    }
+    let kin = crate::props::stack::build(std::sync::Arc::new(bare), &layers);
     let mut q = joints_uniform(rng, PI);
     // a fifth of the joint vectors consists of round angles (multiples of 15 degrees): flange
     // orientations with exact zeros / equal entries, where matrix -> quaternion conversions change case
@@ -88,12 +97,12 @@ fn run_case(_kind: &str, idx: u64, rng: &mut Rng, mon: &mut Mon, _tier: Tier) {
     // the pose as the reference chain gives it, as the library's own forward() gives it, or either of them
     // written with the negated quaternion (q and -q are the same rotation)
     let pose_src = rng.usize(4);
-    let pose = if pose_src % 2 == 0 { fr_to_iso(&fk(&rp, &q)) } else { kin.forward(&q) };
+    let pose = if pose_src % 2 == 0 { fr_to_iso(&crate::props::stack::ref_forward(&rp, &layers, &q)) } else { kin.forward(&q) };
     let pose = if pose_src >= 2 { Iso::from_parts(pose.translation, nalgebra::Unit::new_unchecked(-pose.rotation.into_inner())) } else { pose };
     mon.count(&format!("pose_source.{}", ["reference_chain", "library_forward", "reference_chain_negated_quaternion", "library_forward_negated_quaternion"][pose_src]));
     let sols = kin.inverse(&pose);
     mon.count(&format!("branches.{}", sols.len()));
-    let detail = |what: &str, extra: serde_json::Value| json!({"robot": robot_json(&robot), "q": jf(&q), "min_margin": mq, "pose_source": pose_src, "clause": what, "answers": sols.iter().map(|s| jf(s)).collect::<Vec<_>>(), "extra": extra});
+    let detail = |what: &str, extra: serde_json::Value| json!({"robot": robot_json(&robot), "stack": crate::props::stack::stack_json(&layers), "q": jf(&q), "min_margin": mq, "pose_source": pose_src, "clause": what, "answers": sols.iter().map(|s| jf(s)).collect::<Vec<_>>(), "extra": extra});
 
     // 1. completeness
     if !sols.iter().any(|s| same_mod(s, &q, tol)) {
